@@ -74,12 +74,12 @@ theorem hwif_rt_private (net : Network) (hnet : net.b58DoubleSha = true) (n : No
 theorem hwif_rt_public [Good g.c] (h4 : g.c.p % 4 = 3) (hbc : byteCount g.c.p = 32)
     (net : Network) (hnet : net.b58DoubleSha = true) (n : Node) (hv : n.Valid g)
     (hd : n.depth ≤ 255) (hi : n.childIndex < 2 ^ 32)
-    (hx0 : 0 ≤ n.publicPair.1) (hx1 : n.publicPair.1 < 2 ^ 256) (hy0 : 0 < n.publicPair.2) (hy1 : n.publicPair.2 < g.c.p)
-    (hok : prefixesOk net n.kind = true) {a : Bytes} (ha : parsePrefix net n.kind true = some a) :
+    (hx0 : 0 ≤ n.publicPair.1) (hx1 : n.publicPair.1 < 2 ^ 256) (hxp : n.publicPair.1 < g.c.p) (hy0 : 0 < n.publicPair.2)
+    (hy1 : n.publicPair.2 < g.c.p) (hok : prefixesOk net n.kind = true) {a : Bytes} (ha : parsePrefix net n.kind true = some a) :
     ∃ text, hwif net n false = some (.ok text) ∧
       parseBip g net n.kind text = .ok (some { n with secretExponent := none }) := by
   obtain ⟨b, hb, oa, ob, la, lb⟩ := prefixesOk_spec hok ha
-  obtain ⟨blob, s1, s2, -, s4⟩ := serialize_rt_public h4 hbc n hv hd hi hx0 hx1 hy0 hy1 b lb
+  obtain ⟨blob, s1, s2, -, s4⟩ := serialize_rt_public h4 hbc n hv hd hi hx0 hx1 hxp hy0 hy1 b lb
   obtain ⟨text, ht⟩ := b2aHashed_ok (b ++ blob)
   refine ⟨text, ?_, ?_⟩
   · unfold hwif
